@@ -14,7 +14,7 @@ func init() {
 	register(&Prop{
 		ID:    "C03",
 		Title: "A subscriber's folded view converges to the store's state",
-		Explanation: "R03.1 in both onUpdate functions the bus listener is registered while the lock that covered the snapshot is still held (no commit can fall between snapshot and registration). R03.2 Value.Pull, Collection.Pull and Collection.PullID reach Bus.Listen synchronously on every path before they return. R03.3 from the commit of a write to the Bus.Send that publishes it a lock that serialises writers is held continuously (holds for Collection.Delete; Value.set and Collection.Update publish after releasing the lock: recorded known findings F-3a/b). R03.4 the published change carries GetAndUpdate's new (and old) value and the id the item was saved under. R03.5 no seed event can be sent after the update loop started. R03.6 the listener registry is accessed under its lock and delivery iterates a copy. R03.7 PullID forwards exactly the events of its (intercepted) id and ends on REMOVE. Does NOT decide convergence itself, interleavings inside Bus.Send across listeners, or consumer pacing.",
+		Explanation: "R03.1 in both onUpdate functions the bus listener is registered while the lock that covered the snapshot is still held (no commit can fall between snapshot and registration). R03.2 Value.Pull, Collection.Pull and Collection.PullID reach Bus.Listen synchronously on every path before they return. R03.3 from the commit of a write to the Bus.Send that publishes it a lock that serialises writers is held continuously (holds for Collection.Delete; Value.set and Collection.Update publish after releasing the lock: recorded known findings F-3a/b). R03.4 the published change carries GetAndUpdate's new (and old) value and the id the item was saved under. R03.5 no seed event can be sent after the update loop started. R03.6 the listener registry is accessed under its lock and delivery iterates a copy. R03.7 PullID forwards exactly the events of its (intercepted) id and ends on REMOVE. R03.9/R03.10 every committed write publishes exactly one event and queued events merge by the documented table. R03.11 the event object shared by all subscribers is never written by the forwarding code. Does NOT decide convergence itself, interleavings inside Bus.Send across listeners, or consumer pacing.",
 		Assumptions: []string{"Bus.Send delivers synchronously to listeners registered before it copied the registry"},
 		Run:         runC03,
 		Controls: []Control{
